@@ -274,6 +274,11 @@ func (vc *VC) intCellTerms(env *Env) []Term {
 		sortValues(keys)
 		for _, k := range keys {
 			t := st.cells[k]
+			// only integer-typed locals are index candidates (pointers, maps
+			// and interfaces share the Int sort but are never indices)
+			if !isInteger(derefType(k.Type())) {
+				continue
+			}
 			if t.Sort == SInt && !seen[t.S] {
 				seen[t.S] = true
 				out = append(out, t)
